@@ -53,12 +53,16 @@ class W:
 def impl_encode(spec):
     from rsocket import frame as F
     from rsocket.transports.tcp import TransportTCP
-    fr = FR.build(spec)
-    one = fr.serialize()
-    with_len = F.serialize_with_frame_size_header(FR.build(spec))
-    w = W()
-    t = TransportTCP(None, w)
-    loop().run_until_complete(t.send_frame(FR.build(spec)))
+    try:
+        fr = FR.build(spec)
+        one = fr.serialize()
+        with_len = F.serialize_with_frame_size_header(FR.build(spec))
+        w = W()
+        t = TransportTCP(None, w)
+        loop().run_until_complete(t.send_frame(FR.build(spec)))
+    except Exception as e:
+        # every generated frame value is within the wire format's ranges: the encoder must not refuse it
+        return {'raised': type(e).__name__, 'hex': '', 'with_len': '', 'writes': [], 'dec': 'RAISED', 're': None}
     try:
         back = F.parse_or_ignore(one)
         dec = FR.dump(back)
@@ -232,11 +236,21 @@ class C02(Prop):
                 s2 = FR.gen_spec(rng, kinds=[s1['t']])
                 out.append({'kind': 'reuse', 'how': how, 'spec1': s1, 'spec2': s2})
         for _ in range(n):
-            base = FR.build(FR.gen_spec(rng)).serialize()
+            spec = FR.gen_spec(rng)
+            try:
+                base = FR.build(spec).serialize()
+            except Exception:
+                out.append({'kind': 'enc', 'spec': spec})       # the encoder refuses a legal value: judged as an encoding case
+                continue
             out.append({'kind': 'dec', 'blob': mutate(rng, base).hex()})
         for _ in range(16 if tier == 'quick' else 200):
             specs = [FR.gen_spec(rng) for _ in range(150)]
-            blobs = [mutate(rng, FR.build(FR.gen_spec(rng)).serialize()).hex() for _ in range(150)]
+            blobs = []
+            for _ in range(150):
+                try:
+                    blobs.append(mutate(rng, FR.build(FR.gen_spec(rng)).serialize()).hex())
+                except Exception:
+                    pass
             out.append({'kind': 'backend', 'specs': specs, 'blobs': blobs})
         return out
 
@@ -285,6 +299,8 @@ class C02(Prop):
                 a = a[4:]
             if not a.startswith('wf '):
                 return 'model does not consider the generated frame well-formed: %s' % a[:80]
+            if obs.get('raised'):
+                return 'the implementation raised %s encoding a frame value the model encodes' % obs['raised']
             hexs, writes, dec = a[3:].split(' | ')
             impl_writes = ';'.join(obs['writes'])
             if obs['hex'] != (hexs if hexs != '-' else ''):
@@ -315,6 +331,9 @@ class C02(Prop):
 
     def oracle(self, case, obs):
         fails = []
+        if case['kind'] == 'enc' and obs.get('raised'):
+            return [{'signature': 'encode-raises:' + case['spec']['t'], 'what': 'encoding a %s frame within the wire format\'s ranges raised %s: %s' % (
+                case['spec']['t'], obs['raised'], FR.spec_line(norm_spec(case['spec']))[:200])}]
         if case['kind'] == 'enc':
             s = case['spec']
             exp = expected_dump(s)
